@@ -379,7 +379,7 @@ func (c *Ctx) Prove(modules ...string) {
 				break
 			}
 		}
-		c.BrokenProof = append(c.BrokenProof, first)
+		c.BrokenProof = append(c.BrokenProof, first+enclosingDecl(lean, first))
 		c.Extra["lake_output_tail"] = tail(out, 30)
 		return
 	}
@@ -458,6 +458,27 @@ func (c *Ctx) Prove(modules ...string) {
 }
 
 // inComment reports whether a grep hit "file:line:text" lies inside a /- … -/ block comment.
+// enclosingDecl names the theorem / definition a Lean error position lies in ("error: File.lean:12:3: …")
+func enclosingDecl(leanDir, errLine string) string {
+	m := regexp.MustCompile(`([A-Za-z0-9_/]+\.lean):(\d+):\d+`).FindStringSubmatch(errLine)
+	if m == nil {
+		return ""
+	}
+	data, err := os.ReadFile(filepath.Join(leanDir, m[1]))
+	if err != nil {
+		return ""
+	}
+	n, _ := strconv.Atoi(m[2])
+	lines := strings.Split(string(data), "\n")
+	decl := regexp.MustCompile(`^\s*(?:private |protected )?(theorem|lemma|def|example|instance|abbrev)\s+([^\s:(\[{]+)?`)
+	for i := n - 1; i >= 0 && i < len(lines); i-- {
+		if d := decl.FindStringSubmatch(lines[i]); d != nil {
+			return " [in " + d[1] + " " + d[2] + " of " + m[1] + "]"
+		}
+	}
+	return ""
+}
+
 func inComment(dir, hit string) bool {
 	parts := strings.SplitN(hit, ":", 3)
 	if len(parts) < 3 {
